@@ -165,53 +165,10 @@ def check(P, R):
 
     # ---- b
     gi = P.func(f'{RR}:Route.__getitem__')
-    g, rd = gi.cfg, gi.rd
-    mp = gi.params[1]
     fors = [n for n in walk_shallow(gi.node) if isinstance(n, ast.For)]
     R.require(len(fors) == 1, 'Route.__getitem__: expected one loop over the candidates')
+    check_candidates_loop(R, gi, fors[0], gi.params[1], 'self')
     lp = fors[0]
-    def in_order(name, at, depth=0):
-        # every definition of the iterated name is the candidates parameter itself, a copy of it, or the one-item list [param]
-        ds = rd.at(at, name)
-        if not ds or depth > 4:
-            return False
-        for d in ds:
-            if d.kind == 'param' and d.name == mp:
-                continue
-            if d.kind == 'assign' and isinstance(d.value, ast.List) and len(d.value.elts) == 1 and isinstance(d.value.elts[0], ast.Name) \
-                    and in_order(d.value.elts[0].id, d.node, depth + 1):
-                continue
-            if d.kind == 'assign' and isinstance(d.value, ast.Name) and in_order(d.value.id, d.node, depth + 1):
-                continue
-            return False
-        return True
-    ok = isinstance(lp.iter, ast.Name) and in_order(lp.iter.id, g.nodes_for(lp)[0])
-    R.ob('C02.b', gi, lp, ok, text=f'for name in {short(lp.iter)}', detail='' if ok else
-         'the candidates are not iterated in the order given (sorted / set / reversed / re-bound)')
-    rets = [n for n in walk_shallow(gi.node) if isinstance(n, ast.Return) and n.value is not None and not is_const(n.value, None)]
-    ok = bool(rets)
-    tname = lp.target.id if isinstance(lp.target, ast.Name) else ''
-    head_ = g.nodes_for(lp)[0]
-    for r in rets:
-        rn = g.node_of_stmt(r)[0]
-        cl = rd.closure_nodes(r.value, rn)
-        ok = ok and (any(isinstance(x, ast.Call) and call_attr(x) == 'get' and dotted(x.func.value) == 'self._methods'
-                         and x.args and isinstance(x.args[0], ast.Name) and x.args[0].id == tname for x in cl)
-                     or any(isinstance(x, ast.Subscript) and dotted(x.value) == 'self._methods' for x in cl))
-    # the first hit ends the search: from the truthy edge of the test on the looked-up entry the loop head is not reached again
-    hits = []
-    for tn in g.nodes:
-        if tn.kind == 'test' and T._inside(tn.ast, lp.body):
-            t_, neg_ = strip_not(tn.ast)
-            if isinstance(t_, ast.Name) and any(d.value is not None and isinstance(d.value, ast.Call) and call_attr(d.value) == 'get'
-                                                for d in rd.at(tn, t_.id)):
-                hits.append((tn, 'false' if neg_ else 'true'))
-            cp_ = compare_parts(t_)
-            if cp_ and cp_[1] in (ast.IsNot, ast.Is) and is_const(cp_[2], None) and isinstance(cp_[0], ast.Name):
-                hits.append((tn, ('true' if cp_[1] is ast.IsNot else 'false') if not neg_ else ('false' if cp_[1] is ast.IsNot else 'true')))
-    ok = ok and bool(hits) and all(not g.can_reach(s_, head_) for (tn, lab) in hits for s_ in T.succ_by_label(tn, lab))
-    R.ob('C02.b', gi, rets[0] if rets else lp, ok, text='return self._methods[<candidate>] on the first hit', detail='' if ok else
-         'the loop does not return the table entry of the first registered candidate')
     raises = [n for n in walk_shallow(gi.node) if isinstance(n, ast.Raise)]
     ok = bool(raises) and all(not T._inside(r, lp.body) and 'RouteMethodError' in src(r) for r in raises)
     R.ob('C02.b', gi, raises[0] if raises else gi.node, ok, text='RouteMethodError only after the loop', detail='' if ok else
@@ -335,6 +292,7 @@ def check(P, R):
     R.require(route_name, 'resolve: cannot find the route variable')
     found_tests = [(n, lab) for (n, lab) in T.falsy_tests(g, route_name)]
     n404 = n405 = 0
+    witnesses = None
     sites = []          # (return statement, node at which the answer is decided, its value)
     for r in rets:
         rn = g.node_of_stmt(r)[0]
@@ -360,8 +318,11 @@ def check(P, R):
                 ok = any(g.edge_dominates(n, 'false' if lab == 'true' else 'true', rn) for (n, lab) in found_tests if lab in ('true', 'false')) \
                     or all(not g.can_reach(s, rn) for (n, lab) in found_tests for s in T.succ_by_label(n, lab))
                 # and only after the method lookup failed
-                handlers = [hh for hh in g.nodes if hh.kind == 'except' and 'RouteMethodError' in src(hh.ast.type or ast.Constant(value=''))]
-                ok2 = bool(handlers) and all(g.must_pass(g.entry, rn, handlers) for _ in [0])
+                if witnesses is None:
+                    witnesses = lookup_failed_witnesses(R, rs, route_name)
+                handlers = [w for (w, lab) in witnesses if lab is None]
+                ok2 = (bool(handlers) and g.must_pass(g.entry, rn, handlers)) or \
+                    any(g.edge_dominates(w, lab, rn) for (w, lab) in witnesses if lab is not None)
                 R.ob('C02.d', rs, r, ok and ok2, detail='' if ok and ok2 else
                      ('405 is returned on a path where no route was found' if not ok else '405 is returned without the method lookup having failed'),
                      why='405 is never given for a path that matches no route')
@@ -407,6 +368,104 @@ def check(P, R):
         ok, det = allow_from_table(P, rs, third, rn, route_name)
         R.ob('C02.e', rs, r, ok, text=f'Allow = {short(third)}', detail=det,
              why='Allow lists exactly the methods registered on that route')
+
+
+def check_candidates_loop(R, gi, lp, mp, recv):
+    """the loop over the candidate method names (in Route.__getitem__, or a copy of it in the router): candidates in the order
+    given, the first registered one wins"""
+    g, rd = gi.cfg, gi.rd
+
+    def in_order(name, at, depth=0):
+        # every definition of the iterated name is the candidates parameter itself, a copy of it, or the one-item list [param]
+        ds = rd.at(at, name)
+        if not ds or depth > 4:
+            return False
+        for d in ds:
+            if d.kind == 'param' and d.name == mp:
+                continue
+            if d.kind == 'assign' and isinstance(d.value, ast.List) and len(d.value.elts) == 1 and isinstance(d.value.elts[0], ast.Name) \
+                    and in_order(d.value.elts[0].id, d.node, depth + 1):
+                continue
+            if d.kind == 'assign' and isinstance(d.value, ast.Name) and in_order(d.value.id, d.node, depth + 1):
+                continue
+            return False
+        return True
+    ok = isinstance(lp.iter, ast.Name) and in_order(lp.iter.id, g.nodes_for(lp)[0])
+    R.ob('C02.b', gi, lp, ok, text=f'for name in {short(lp.iter)}', detail='' if ok else
+         'the candidates are not iterated in the order given (sorted / set / reversed / re-bound)')
+    table = f'{recv}._methods'
+    tname = lp.target.id if isinstance(lp.target, ast.Name) else ''
+    head_ = g.nodes_for(lp)[0]
+
+    def entry_of_candidate(x):
+        return (isinstance(x, ast.Call) and call_attr(x) == 'get' and dotted(x.func.value) == table
+                and x.args and isinstance(x.args[0], ast.Name) and x.args[0].id == tname) or \
+               (isinstance(x, ast.Subscript) and dotted(x.value) == table)
+    if gi.name == '__getitem__':
+        rets = [n for n in walk_shallow(gi.node) if isinstance(n, ast.Return) and n.value is not None and not is_const(n.value, None)]
+        vals = [(r, r.value, g.node_of_stmt(r)[0]) for r in rets]
+    else:
+        # the copy in the router: the values that leave the loop through a break
+        vals = []
+        for st in walk_shallow(lp):
+            if isinstance(st, ast.Break) and T._inside(st, lp.body):
+                bn = g.node_of_stmt(st)[0]
+                for n_ in g.nodes:
+                    for d in rd.gen.get(n_, []):
+                        if d.kind == 'assign' and d.value is not None and T._inside(d.stmt, lp.body) and g.dominates(n_, bn) \
+                                and not any(entry_of_candidate(x) for x in ast.walk(d.value)) and not is_const(d.value, None):
+                            vals.append((d.stmt, d.value, n_))
+    ok = bool(vals)
+    for (r, v, rn) in vals:
+        cl = rd.closure_nodes(v, rn)
+        ok = ok and any(entry_of_candidate(x) for x in cl)
+    # the first hit ends the search: from the truthy edge of the test on the looked-up entry the loop head is not reached again
+    hits = []
+    for tn in g.nodes:
+        if tn.kind == 'test' and T._inside(tn.ast, lp.body):
+            t_, neg_ = strip_not(tn.ast)
+            if isinstance(t_, ast.Name) and any(d.value is not None and isinstance(d.value, ast.Call) and call_attr(d.value) == 'get'
+                                                for d in rd.at(tn, t_.id)):
+                hits.append((tn, 'false' if neg_ else 'true'))
+            cp_ = compare_parts(t_)
+            if cp_ and cp_[1] in (ast.IsNot, ast.Is) and is_const(cp_[2], None) and isinstance(cp_[0], ast.Name):
+                hits.append((tn, ('true' if cp_[1] is ast.IsNot else 'false') if not neg_ else ('false' if cp_[1] is ast.IsNot else 'true')))
+    ok = ok and bool(hits) and all(not g.can_reach(s_, head_) for (tn, lab) in hits for s_ in T.succ_by_label(tn, lab))
+    R.ob('C02.b', gi, vals[0][0] if vals else lp, ok, text=f'{table}[<candidate>] on the first hit', detail='' if ok else
+         'the loop does not return the table entry of the first registered candidate')
+
+
+def lookup_failed_witnesses(R, rs, route_name):
+    """(node, label) pairs: control passes there only when the method lookup on the matched route failed.  Either the handler of
+    RouteMethodError (label None), or the `is None` / falsy edge of a test on the result of a search loop over the route's
+    table that binds None in its else-branch only."""
+    g, rd = rs.cfg, rs.rd
+    out = [(hh, None) for hh in g.nodes if hh.kind == 'except' and 'RouteMethodError' in src(hh.ast.type or ast.Constant(value=''))]
+    table = f'{route_name}._methods'
+    loops = [lp for lp in walk_shallow(rs.node) if isinstance(lp, ast.For) and lp.orelse and any(
+        isinstance(x, ast.Attribute) and dotted(x) == table for b in lp.body for x in ast.walk(b))]
+    for lp in loops:
+        check_candidates_loop(R, rs, lp, rs.params[2], route_name)
+        for tn in g.nodes:
+            if tn.kind != 'test' or T._inside(tn.ast, lp.body) or T._inside(tn.ast, lp.orelse):
+                continue
+            t_, neg_ = strip_not(tn.ast)
+            cp_ = compare_parts(t_)
+            if cp_ and cp_[1] in (ast.Is, ast.IsNot) and is_const(cp_[2], None) and isinstance(cp_[0], ast.Name):
+                v, lab = cp_[0].id, ('true' if cp_[1] is ast.Is else 'false')
+            elif isinstance(t_, ast.Name):
+                v, lab = t_.id, 'false'
+            else:
+                continue
+            if neg_:
+                lab = 'false' if lab == 'true' else 'true'
+            ds = rd.at(tn, v)
+            nones = [d for d in ds if d.value is not None and is_const(d.value, None)]
+            others = [d for d in ds if d not in nones]
+            if nones and all(d.stmt is not None and T._inside(d.stmt, lp.orelse) for d in nones) and \
+                    all(d.stmt is not None and T._inside(d.stmt, lp.body) for d in others):
+                out.append((tn, lab))
+    return out
 
 
 def allow_from_table(P, fn, expr, at, route_name, depth=0):
